@@ -195,3 +195,34 @@ Proof. unfold ward_check. intros H. apply andb_true_iff in H. destruct H as [H1 
   unfold dendro_check in H1. apply andb_true_iff in H1. destruct H1 as [H1 _]. apply andb_true_iff in H1. destruct H1 as [H1 _].
   apply andb_true_iff in H1. destruct H1 as [_ Hv]. rewrite forallb_forall in Hv, H2.
   now apply (cheapest_sound d n G feat parents height Hv). Qed.
+
+(* ------------------------------------------------ translation invariance *)
+(* x + t on the first d coordinates *)
+Definition vshift (d : nat) (t x : vec) : vec := map (fun j => nth j x 0 + nth j t 0) (seq 0 d).
+
+Lemma vshift_nth d t x j : (j < d)%nat -> nth j (vshift d t x) 0 = nth j x 0 + nth j t 0.
+Proof. intros H. unfold vshift. now rewrite nth_map_seq. Qed.
+
+Lemma qsum_map_shift {A} (g : A -> Q) (c : Q) (xs : list A) :
+  qsum (map (fun x => g x + c) xs) == qsum (map g xs) + Qn (length xs) * c.
+Proof. induction xs as [|x xs IH]; cbn [map qsum fold_right length].
+  - unfold Qn; simpl. ring.
+  - fold (qsum (map (fun x => g x + c) xs)). fold (qsum (map g xs)). rewrite IH, Qn_S. ring. Qed.
+
+Lemma vmean_shift d t xs j : xs <> [] -> (j < d)%nat ->
+  nth j (vmean d (map (vshift d t) xs)) 0 == nth j (vmean d xs) 0 + nth j t 0.
+Proof. intros Hne Hj. rewrite !vmean_nth by exact Hj. rewrite map_length. unfold col. rewrite map_map.
+  assert (Hp : 0 < Qn (length xs)) by (apply Qn_pos; destruct xs; [congruence|simpl; lia]).
+  rewrite (qsum_map_ext (fun x => nth j (vshift d t x) 0) (fun x => nth j x 0 + nth j t 0))
+    by (intros x _; now rewrite vshift_nth).
+  rewrite qsum_map_shift. unfold vec in *. field. lra. Qed.
+
+Lemma sqdist_shift d t xs x : xs <> [] -> forall d', (d' <= d)%nat ->
+  sqdist d' (vshift d t x) (vmean d (map (vshift d t) xs)) == sqdist d' x (vmean d xs).
+Proof. intros Hne. induction d' as [|d' IH]; intros Hd; cbn [sqdist]; [reflexivity|].
+  rewrite IH by lia. rewrite vshift_nth by lia. rewrite (vmean_shift d t xs d' Hne) by lia. ring. Qed.
+
+(* the within-cluster sum of squares does not change when every row is translated by t *)
+Lemma wss_shift d t xs : wss d (map (vshift d t) xs) == wss d xs.
+Proof. destruct xs as [|x0 xs]; [reflexivity|]. unfold wss. rewrite map_map.
+  apply qsum_map_ext. intros x _. apply sqdist_shift; [discriminate|lia]. Qed.
